@@ -1,18 +1,26 @@
 """C20 — shutdown stops accepting but not answering; idle workers are reclaimed."""
-import re
+import re, operator
 from core import *  # noqa
 from roles import *  # noqa
-import roles, shared, symex
+import roles, shared, symex, inline, absint
+import queue_rules as Q
+import pool_rules as PR
+import server_rules as S
 
 EXPLANATION = (
-    "Ordering / ownership / structure decided on MIR (all time bounds are not): Server::drop sets the close flag before the self-connection that "
-    "wakes the accept thread, attempts that connection on every path and removes the UNIX socket path; the accept loop re-reads the same flag before "
-    "every accept and, on leaving, drops the listener and the pool it owns; the only shutdown(Both) is on the throw-away self-connection, connection "
-    "sockets are closed only by their halves' destructor, so handed-out requests stay answerable; workers wait with the 5 s timeout exactly when more "
-    "than MIN_THREADS (4) are active and exit only after a timed-out wait with an empty queue; the pool's destructor raises active_tasks above "
-    "MIN_THREADS and wakes everyone; active_tasks is otherwise changed only by the per-thread registration guard (dropped on every exit incl. unwinding); "
-    "threads are created only for the accept loop and by the pool.")
+    "Ordering / ownership / structure decided on MIR (all time bounds are not), with the accept thread, the pool, its worker and its counters bound by "
+    "role and every body analysed with its helpers and small std combinators spliced in: Server::drop sets the close flag before the self-connection that "
+    "wakes the accept thread, attempts that connection on every path and, for a UNIX listener with a path, removes the socket path on every path (variant "
+    "propagation from `the listener is UNIX / IP`); the accept loop re-reads the same flag before every accept and, on leaving, drops the listener and the "
+    "pool it owns; the only shutdown(Both) is on the throw-away self-connection, connection sockets are closed only by their halves' destructor, so "
+    "handed-out requests stay answerable; workers wait with a constant timeout exactly when more than the fixed minimum are alive and exit only after a "
+    "timed-out wait with an empty queue; the pool's destructor raises the live counter above the minimum and wakes everyone; counters are otherwise "
+    "stepped only in pairs (released on every exit incl. unwinding); threads are created only for the accept loop and by the pool.")
 TRUSTED = ["rustc MIR / drop elaboration", "std atomics / Condvar semantics", "closing a listener makes the kernel refuse new connections"]
+
+LADDR = "connection::ListenAddr"
+ADDR = ("sym", "unix-address")
+IPADDR = ("sym", "ip-address")
 
 
 def static_value(facts, name):
@@ -25,151 +33,145 @@ def static_value(facts, name):
     return None
 
 
-def const_or_static(facts, f, o):
-    """integer value of an origin that is a literal or a read of a local static"""
+def int_of_origin(facts, o):
+    """integer behind an origin: a literal, an evaluated named constant, or a read of a local static"""
     for x in origin_walk(o):
-        if x[0] == "const" and isinstance(x[1], int) and not isinstance(x[1], bool):
-            return x[1]
+        if x[0] == "const":
+            if isinstance(x[1], int) and not isinstance(x[1], bool):
+                return x[1]
     return None
+
+
+def statics_read(f, o, facts):
+    """value of a local static read somewhere in the origin (`*&STATIC`)"""
+    vals = []
+    for x in origin_walk(o):
+        if x[0] == "const" and isinstance(x[2], str):
+            for s in facts.d["statics"]:
+                if s["id"] in x[2] or x[2].startswith("{alloc"):
+                    pass
+    return vals
+
+
+def field_of_type(adt, rx):
+    xs = [x["name"] for x in adt["variants"][0]["fields"] if re.search(rx, x["ty"])]
+    return xs[0] if len(xs) == 1 else None
 
 
 def run(ctx):
     facts = ctx.facts
     roles.bind(facts)
-    MIN = static_value(facts, "util::task_pool::MIN_THREADS")
-    ctx.require(isinstance(MIN, int), "C20: static MIN_THREADS not found")
-    ctx.counts["MIN_THREADS"] = MIN
+    P = PR.model(facts)
+    SM = S.smodel(facts)
+    srv = facts.adt(SERVER)
+    close_f = field_of_type(srv, r"^std::sync::Arc<std::sync::atomic::Atomic(Bool|<bool>)>$")
+    addr_f = field_of_type(srv, r"^connection::ListenAddr$")
+    ctx.require(close_f and addr_f, "C20: the Server has no close flag / listening address field")
 
     # ---- C20.1 Server::drop
-    f = method(facts, T_DROP, SERVER, "drop")
+    d0 = method(facts, T_DROP, SERVER, "drop")
+    f = inline.inlined(facts, d0.id, stop=lambda d: d.startswith("connection::") or d.startswith("<connection::"), extern_ok=Q.std_small)
     ctx.touch(f)
-    stores = [bb for bb, t in f.calls() if call_matches(t, r"atomic::Atomic(::<bool>|Bool)::store$") and "close" in arg_origin_fields(f, t) and op_const(t["args"][1]) is True]
+    where = "%s:%d" % (f.file, f.line)
+    stores = [bb for bb, t in f.calls() if call_matches(t, r"atomic::Atomic(::<bool>|Bool)::store$") and close_f in arg_origin_fields(f, t) and op_const(t["args"][1]) is True]
     connects = [bb for bb, t in f.calls() if call_matches(t, r"^std::net::TcpStream::connect|^std::os::unix::net::UnixStream::connect")]
-    ctx.ob("C20.1", "%s|sets-close-flag" % f.id, "dropping the server sets the close flag", len(stores) == 1, "%s:%d" % (f.file, f.line))
+    ctx.ob("C20.1", "%s|sets-close-flag" % d0.id, "dropping the server sets the close flag", len(stores) == 1, where)
     ok = bool(stores) and bool(connects) and all(f.dominates(stores[0], c, unwind=False) for c in connects)
-    ctx.ob("C20.1", "%s|flag-before-wakeup" % f.id, "the flag is set before the self-connection that wakes the accept thread (otherwise the thread would go back to accept)", ok, "%s:%d" % (f.file, f.line))
-    reach = f.reach([0], blocked=set(connects), unwind=False)
-    unwraps = set(f.call_blocks(lambda t: call_matches(t, r"Option::<T>::unwrap$")))
-    ok = bool(connects) and not any(r in reach for r in f.returns())
-    ctx.paths += 1
-    ctx.ob("C20.1", "%s|always-wakes-accept-thread" % f.id, "a wake-up connection to the listening address is attempted on every path (TCP and UNIX)", ok, "%s:%d" % (f.file, f.line))
-    # connects go to the server's own address
+    ctx.ob("C20.1", "%s|flag-before-wakeup" % d0.id, "the flag is set before the self-connection that wakes the accept thread (otherwise the thread would go back to accept)", ok, where)
     for c in connects:
         o = f.origin(f.term(c)["args"][0])
-        ctx.ob("C20.1", "%s|connects-to-own-address|%s" % (f.id, "unix" if "unix" in call_name(f.term(c)) else "tcp"), "the wake-up connection targets the server's own listening address", "listening_addr" in origin_fields(o), f.loc(c))
-    # UNIX: the socket path is removed on every normal path (the only ways around it: a TCP listener, an unnamed address)
-    rm0 = set(bb for bb, t in f.calls() if call_matches(t, r"^std::fs::remove_file"))
-    skip = set()
-    for bb in sorted(f.live_blocks()):
-        sw = switch_on_discr(f, bb)
-        if not sw or f.blocks[bb]["cleanup"]:
-            continue
-        rv, m, otherwise, rest = sw
-        if rv.get("adt") == "connection::ListenAddr":
-            ipt = m.get("IP", otherwise if "IP" in rest else None)
-            # only the *last* test of the listener kind may be skipped through its IP arm: an IP arm that later
-            # joins the Unix path again does not excuse anything; so block IP arms from which no further ListenAddr test is reachable
-            if ipt is not None:
-                later = [b2 for b2 in f.reach([ipt], unwind=False) if b2 != bb and switch_on_discr(f, b2) and switch_on_discr(f, b2)[0].get("adt") == "connection::ListenAddr"]
-                if not later:
-                    skip.add(ipt)
-        if rv.get("adt") == "std::option::Option" and origin_has_call(f.origin_place(rv["pl"]), r"as_pathname$"):
-            nt = m.get("None", otherwise if "None" in rest else None)
-            if nt is not None:
-                skip.add(nt)
-    r_all = f.reach([0], blocked=rm0 | skip, unwind=False)
-    ok_all = bool(rm0) and not any(x in r_all for x in f.returns())
-    ctx.paths += 1
-    ctx.ob("C20.1", "%s|unix-path-removed-on-every-path" % f.id, "for a UNIX listener the socket path is removed on every path through Server::drop (also when the wake-up connection fails)",
-           ok_all, "%s:%d" % (f.file, f.line), None if ok_all else "a path reaches `return` without remove_file: %s" % f.path([0], f.returns(), blocked=rm0 | skip, unwind=False))
-    # UNIX: remove_file on every normal path of the Unix arm
-    rm = [bb for bb, t in f.calls() if call_matches(t, r"^std::fs::remove_file")]
-    okrm = False
-    for bb in sorted(f.live_blocks()):
-        sw = switch_on_discr(f, bb)
-        if sw and sw[0].get("adt") == "connection::ListenAddr" and rm and f.dominates(bb, rm[0], unwind=False):
-            rv, m, otherwise, rest = sw
-            ut = m.get("Unix", otherwise if "Unix" in rest else None)
-            if ut is not None and rm[0] in f.reach([ut], unwind=False):
-                # the only way around remove_file on the Unix arm is an unnamed address (as_pathname() == None)
-                r_ = f.reach([ut], blocked=set(rm), unwind=False)
-                escapes = [x for x in f.returns() if x in r_]
-                guarded = True
-                if escapes:
-                    guarded = False
-                    for b2 in r_:
-                        s2 = switch_on_discr(f, b2)
-                        if s2 and origin_has_call(f.origin_place(s2[0]["pl"]), r"as_pathname$"):
-                            guarded = True
-                okrm = guarded
-    ctx.ob("C20.1", "%s|removes-unix-path" % f.id, "for a UNIX listener the socket path is removed (whenever the address has a path)", okrm, "%s:%d" % (f.file, f.line))
+        ctx.ob("C20.1", "%s|connects-to-own-address|%s" % (d0.id, "unix" if "unix" in call_name(f.term(c)) else "tcp"), "the wake-up connection targets the server's own listening address", addr_f in origin_fields(o), f.loc(c))
+    la = facts.adt(LADDR)
+    for v in la["variants"]:
+        kind = v["name"]
+        st = symex.Sym(f)
+        payload = ADDR if kind != "IP" else IPADDR
+        st.write_key((1, "*", "." + addr_f), ("agg", LADDR, kind, {v["fields"][0]["name"] if v["fields"] else "0": payload}))
+        paths = [p for p in absint.explore(f, 0, st) if p.end[0] == "return"]
+        ctx.paths += len(paths)
+        want = r"^std::os::unix::net::UnixStream::connect" if kind == "Unix" else r"^std::net::TcpStream::connect"
+        bad = [p for p in paths if not any(re.search(want, e[2]) for e in p.calls())]
+        ctx.ob("C20.1", "%s|always-wakes-accept-thread|%s" % (d0.id, kind), "a wake-up connection to the listening address is attempted on every path (%s listener)" % kind, bool(paths) and not bad, where,
+               None if not bad else "a path returns without connecting")
+        if kind == "Unix":
+            # paths on which the address has a pathname must remove it
+            bad = []
+            n_named = 0
+            for p in paths:
+                pn = [e for e in p.calls() if re.search(r"SocketAddr::as_pathname$", e[2])]
+                unnamed = any(c and c[0] == "variant" and c[2] == "None" and any(absint.contains(st_v, e[4]) for e in pn for st_v in [p.state.read_key(c[1])]) for bb, c in p.conds)
+                named = bool(pn) and not any(c and c[0] == "variant" and c[2] == "None" for bb, c in p.conds)
+                if named:
+                    n_named += 1
+                    if not any(re.search(r"^std::fs::remove_file", e[2]) for e in p.calls()):
+                        bad.append("returns without remove_file")
+            ctx.ob("C20.1", "%s|unix-path-removed-on-every-path" % d0.id, "for a UNIX listener the socket path is removed on every path through Server::drop (also when the wake-up connection fails)",
+                   n_named > 0 and not bad, where, None if not bad and n_named else (str(bad[:2]) if bad else "no path found on which the address has a pathname"))
+        else:
+            bad = [p for p in paths if any(re.search(r"^std::fs::remove_file", e[2]) for e in p.calls())]
+            ctx.ob("C20.1", "%s|no-file-removed-for-tcp" % d0.id, "nothing is removed from the file system for a TCP listener", not bad, where)
 
     # ---- C20.2 accept loop
-    acc = facts.find_fns(r"^Server::from_listener::\{closure#0\}$")
-    ctx.require(len(acc) == 1, "C20.2: accept thread closure")
-    a = acc[0]
+    a = SM.a
     ctx.touch(a)
     accepts = a.call_blocks(lambda t: call_matches(t, r"connection::Listener::accept$"))
     loads = [(bb, t) for bb, t in a.calls() if call_matches(t, r"atomic::Atomic(::<bool>|Bool)::load$")]
-    ctx.require(len(accepts) == 1 and loads, "C20.2: accept/load not found")
-    lb, lt = loads[0]
-    bs = bool_switch(a, lt["target"])
-    ctx.require(bs is not None, "C20.2: flag load is not branched on")
-    # which edge continues to accept?
-    cont = bs[2] if accepts[0] in a.reach([bs[2]], blocked={lb}, unwind=False) else bs[1]
-    stop = bs[1] if cont == bs[2] else bs[2]
-    o = a.origin(bs[0])
-    neg = o[0] == "unop" and o[1] == "Not"
-    # `while !flag`: continue when flag is false
-    cont_when_false = (cont == bs[2]) != neg
-    ok = a.in_loop(lb) and a.dominates(lb, accepts[0], unwind=False) and cont_when_false
-    ctx.ob("C20.2", "%s|flag-checked-before-every-accept" % a.id, "the accept loop tests the close flag before each accept and leaves when it is set", ok, a.loc(lb))
-    # from accept's return, the only way back to accept passes the load again
-    r_ = a.reach([a.normal_target(accepts[0])], blocked={lb}, unwind=False)
-    ctx.ob("C20.2", "%s|no-accept-without-check" % a.id, "no second accept happens without re-testing the flag", accepts[0] not in r_, a.loc(accepts[0]))
-    r_stop = a.reach([stop], unwind=False)
-    ctx.ob("C20.2", "%s|exit-returns" % a.id, "once the flag is set the thread returns (without accepting again)", accepts[0] not in r_stop and any(x in r_stop for x in a.returns()), a.loc(stop))
-    # the flag loaded is the clone of the server's close flag
-    fl = facts.fn("Server::from_listener")
-    clos = [(bb, s) for bb, i, s in fl.assigns() if s["rhs"]["rv"] == "agg" and s["rhs"].get("closure") == a.id]
-    ctx.require(len(clos) == 1, "C20.2: accept closure construction")
-    cb, cs = clos[0]
-    caps = dict(zip(cs["rhs"].get("fields") or [], cs["rhs"]["ops"]))
-    of = a.origin(lt["args"][0])
-    cap_name = sorted(origin_fields(of) & set(caps))
-    okc = False
-    if cap_name:
-        oc = fl.origin(caps[cap_name[0]])
-        srv = [(bb, s) for g, bb, s in facts.constructions(SERVER) if g.id == fl.id]
-        if srv:
-            r = srv[0][1]["rhs"]
-            oclose = fl.origin(r["ops"][r["fields"].index("close")])
-            # both derive from the same Arc::new(AtomicBool::new(false))
-            roots_c = {x[3] for x in origin_calls(oc) if re.search(r"Arc::<T>::new$", x[1])}
-            roots_s = {x[3] for x in origin_calls(oclose) if re.search(r"Arc::<T>::new$", x[1])}
-            loc_c = {x[1] for x in origin_walk(oc) if x[0] == "local"}
-            loc_s = {x[1] for x in origin_walk(oclose) if x[0] == "local"}
-            okc = bool(roots_c & roots_s) or bool(loc_c & loc_s) or (origin_has_call(oc, r"Clone>?::clone$") and bool({y[3] for x in origin_calls(oc) for y in origin_calls(x[2][0] if x[2] else ("unknown",)) if re.search(r"Arc::<T>::new$", y[1])} & roots_s))
-    ctx.ob("C20.2", "%s|same-flag" % a.id, "the flag the accept thread reads is the one Server::drop sets", okc, fl.loc(cb))
-    # listener and pool are owned by the closure and dropped when it returns
-    own = {}
-    for name, op in caps.items():
-        own[name] = fl.local_ty(op_local(op)) if op_local(op) is not None else "?"
-    has_listener = any("connection::Listener" in t for t in own.values())
-    pool_locals = [i for i, l in enumerate(a.locals) if l["ty"] == "util::task_pool::TaskPool"]
-    pool_drops = [bb for bb, t in a.drops() if not t["pl"]["p"] and t["pl"]["l"] in pool_locals and not a.blocks[bb]["cleanup"]]
-    lst_drops = [bb for bb, t in a.drops() if ("connection::Listener" in t["ty"] or (t["pl"]["l"] == 1 and not t["pl"]["p"])) and not a.blocks[bb]["cleanup"]]
-    moved_out = [u for u in a.uses().get(1, []) if u[0] == "stmt" and u[4] == "move" and "server" in pl_fields(u[3]["rhs"].get("op", {}).get("pl", {"p": []}))]
-    if not lst_drops and not moved_out:
-        # a by-value closure environment that is never moved out of is destroyed by the caller's
-        # drop glue of the closure (FnOnce::call_once shim) when the body returns
-        lst_drops = list(a.returns())
-    r_ = a.reach([stop], blocked=set(pool_drops), unwind=False)
-    okp = bool(pool_drops) and not any(x in r_ for x in a.returns())
-    r2 = a.reach([stop], blocked=set(lst_drops), unwind=False)
-    okl = has_listener and bool(lst_drops) and not any(x in r2 for x in a.returns())
-    ctx.ob("C20.2", "%s|pool-dropped-on-exit" % a.id, "leaving the accept loop destroys the worker pool", okp, a.loc(stop))
-    ctx.ob("C20.2", "%s|listener-closed-on-exit" % a.id, "leaving the accept loop destroys (closes) the listening socket, which the thread owns", okl, a.loc(stop), str(own))
+    ctx.ob("C20.2", "accept-thread|shape", "the accept thread has one accept call and reads the close flag", len(accepts) == 1 and bool(loads), "%s:%d" % (a.file, a.line))
+    if len(accepts) == 1 and loads:
+        lb, lt = loads[0]
+        bs = bool_switch(a, lt["target"])
+        ctx.require(bs is not None, "C20.2: flag load is not branched on")
+        cont = bs[2] if accepts[0] in a.reach([bs[2]], blocked={lb}, unwind=False) else bs[1]
+        stop = bs[1] if cont == bs[2] else bs[2]
+        o = a.origin(bs[0])
+        neg = o[0] == "unop" and o[1] == "Not"
+        cont_when_false = (cont == bs[2]) != neg
+        ok = a.in_loop(lb) and a.dominates(lb, accepts[0], unwind=False) and cont_when_false
+        ctx.ob("C20.2", "accept-thread|flag-checked-before-every-accept", "the accept loop tests the close flag before each accept and leaves when it is set", ok, a.loc(lb))
+        r_ = a.reach([a.normal_target(accepts[0])], blocked={lb}, unwind=False)
+        ctx.ob("C20.2", "accept-thread|no-accept-without-check", "no second accept happens without re-testing the flag", accepts[0] not in r_, a.loc(accepts[0]))
+        r_stop = a.reach([stop], unwind=False)
+        ctx.ob("C20.2", "accept-thread|exit-returns", "once the flag is set the thread returns (without accepting again)", accepts[0] not in r_stop and any(x in r_stop for x in a.returns()), a.loc(stop))
+        # the flag loaded is the clone of the server's close flag
+        fl = SM.fl
+        clos = [(bb, s) for bb, i, s in fl.assigns() if s["rhs"]["rv"] == "agg" and s["rhs"].get("closure") == SM.accept_def]
+        ctx.require(len(clos) == 1, "C20.2: accept closure construction")
+        cb, cs = clos[0]
+        caps = dict(zip(cs["rhs"].get("fields") or [], cs["rhs"]["ops"]))
+        of = a.origin(lt["args"][0])
+        cap_name = sorted(origin_fields(of) & set(caps))
+        okc = False
+        if cap_name:
+            oc = fl.origin(caps[cap_name[0]])
+            srvc = [(bb, s) for bb, i, s in fl.assigns() if s["rhs"]["rv"] == "agg" and s["rhs"].get("adt") == SERVER]
+            if srvc:
+                r = srvc[0][1]["rhs"]
+                oclose = fl.origin(r["ops"][r["fields"].index(close_f)])
+                roots_c = {x[3] for x in origin_calls(oc) if re.search(r"Arc::<T>::new$", x[1])}
+                roots_s = {x[3] for x in origin_calls(oclose) if re.search(r"Arc::<T>::new$", x[1])}
+                loc_c = {x[1] for x in origin_walk(oc) if x[0] == "local"}
+                loc_s = {x[1] for x in origin_walk(oclose) if x[0] == "local"}
+                okc = bool(roots_c & roots_s) or bool(loc_c & loc_s)
+        ctx.ob("C20.2", "accept-thread|same-flag", "the flag the accept thread reads is the one Server::drop sets", okc, fl.loc(cb))
+        # listener and pool are owned by the thread and dropped when it returns
+        own = {}
+        for name, op in caps.items():
+            own[name] = fl.local_ty(op_local(op)) if op_local(op) is not None else "?"
+        has_listener = any("connection::Listener" in t for t in own.values())
+        pool_locals = [i for i, l in enumerate(a.locals) if l["ty"] == P.tp]
+        pool_drops = [bb for bb, t in a.drops() if not t["pl"]["p"] and t["pl"]["l"] in pool_locals and not a.blocks[bb]["cleanup"]]
+        lst_drops = [bb for bb, t in a.drops() if ("connection::Listener" in t["ty"] or (t["pl"]["l"] == 1 and not t["pl"]["p"])) and not a.blocks[bb]["cleanup"]]
+        moved_out = [u for u in a.uses().get(1, []) if u[0] == "stmt" and u[4] == "move" and any("connection::Listener" in (e.get("ty") or "") for e in u[3]["rhs"].get("op", {}).get("pl", {"p": []})["p"] if isinstance(e, dict))]
+        if not lst_drops and not moved_out:
+            # a by-value closure environment that is never moved out of is destroyed by the caller's
+            # drop glue of the closure (FnOnce::call_once shim) when the body returns
+            lst_drops = list(a.returns())
+        r_ = a.reach([stop], blocked=set(pool_drops), unwind=False)
+        okp = bool(pool_drops) and not any(x in r_ for x in a.returns())
+        r2 = a.reach([stop], blocked=set(lst_drops), unwind=False)
+        okl = has_listener and bool(lst_drops) and not any(x in r2 for x in a.returns())
+        ctx.ob("C20.2", "accept-thread|pool-dropped-on-exit", "leaving the accept loop destroys the worker pool", okp, a.loc(stop))
+        ctx.ob("C20.2", "accept-thread|listener-closed-on-exit", "leaving the accept loop destroys (closes) the listening socket, which the thread owns", okl, a.loc(stop), str(own))
 
     # ---- C20.3 handed-out requests stay answerable
     both = []
@@ -178,107 +180,114 @@ def run(ctx):
             o = g.origin(x)
             if o[0] == "agg" and o[1] == "std::net::Shutdown" and o[4] == "Both":
                 both.append((g, bb))
-    ctx.ob("C20.3", "shutdown-both-sites", "the only full shutdown is the one on Server::drop's throw-away self-connection", [g.id for g, bb in both] == [f.id], f.file, str([g.id for g, bb in both]))
-    for g in (f, a):
-        tys = " ".join(l["ty"] for l in g.locals)
-        ok = "SequentialWriter<" not in tys and "request::Request" not in tys.replace("request::Request>", "") or g.id == a.id
+    okb = bool(both) and all(g.id == d0.id or g.id.startswith(d0.id + "::") for g, bb in both)
+    ctx.ob("C20.3", "shutdown-both-sites", "the only full shutdown is the one on Server::drop's throw-away self-connection", okb, d0.file, str([g.id for g, bb in both]))
+    for key, g in ((d0.id, f), ("accept-thread", a)):
         has_writer = any(re.search(r"SequentialWriter<|BufWriter<", l["ty"]) for l in g.locals)
-        ctx.ob("C20.3", "%s|owns-no-writer" % g.id, "neither Server::drop nor the accept thread owns a connection's write half", not has_writer, "%s:%d" % (g.file, g.line))
-    srv = facts.adt(SERVER)
+        ctx.ob("C20.3", "%s|owns-no-writer" % key, "neither Server::drop nor the accept thread owns a connection's write half", not has_writer, "%s:%d" % (g.file, g.line))
     ftys = " ".join(fl_["ty"] for v in srv["variants"] for fl_ in v["fields"])
     ctx.ob("C20.3", "Server|fields", "the Server holds only the close flag, the queue and its address (no sockets of connections)", not re.search(r"TcpStream|RefinedTcpStream|ClientConnection|JoinHandle", ftys), SERVER, ftys)
 
     # ---- C20.4 worker retirement
-    w = facts.find_fns(r"^util::task_pool::TaskPool::add_thread::\{closure#0\}$")[0]
+    w = P.w
     ctx.touch(w)
     timed = [bb for bb, t in w.calls() if call_is(t, CV_WAIT_T)]
     untimed = [bb for bb, t in w.calls() if call_is(t, CV_WAIT)]
-    ctx.require(len(timed) == 1 and len(untimed) == 1, "C20.4: worker waits (%d timed, %d untimed)" % (len(timed), len(untimed)))
-    dom = w.dominators(False)
-    dec = None
-    for b in sorted(dom[timed[0]] & dom[untimed[0]], key=lambda b: -len(dom[b])):
-        bs2 = bool_switch(w, b)
-        if bs2:
-            dec = (b, bs2)
-            break
-    ctx.require(dec is not None, "C20.4: decision between timed and untimed wait")
-    b, bs2 = dec
-    o = w.origin(bs2[0])
-    ok = False
-    detail = origin_str(o)
-    if o[0] == "binop" and o[1] in ("Le", "Lt", "Gt", "Ge"):
-        l, r = o[2], o[3]
-        lhs_active = origin_has_call(l, r"atomic::Atomic(::<usize>|Usize)::load$") and "active_tasks" in origin_fields(l)
-        rhs_active = origin_has_call(r, r"atomic::Atomic(::<usize>|Usize)::load$") and "active_tasks" in origin_fields(r)
-        other = r if lhs_active else l
-        is_min = any(x[0] == "const" and x[2].find("alloc") >= 0 for x in origin_walk(other)) or const_or_static(facts, w, other) == MIN
-        statics = [s.get("static") for blk in w.blocks for st in blk["stmts"] if st["s"] == "assign" and st["rhs"]["rv"] == "use" for s in [st["rhs"]["op"]] if s.get("static")]
-        is_min = is_min and ("util::task_pool::MIN_THREADS" in statics or const_or_static(facts, w, other) == MIN)
-        import operator
-        ops = {"Le": operator.le, "Lt": operator.lt, "Gt": operator.gt, "Ge": operator.ge}
-        bad = []
-        if (lhs_active or rhs_active) and is_min:
-            for n in (0, 1, MIN - 1, MIN, MIN + 1, MIN + 2, 100, 999999999):
-                val = ops[o[1]](n, MIN) if lhs_active else ops[o[1]](MIN, n)
-                goes_timed = (bs2[1] if val else bs2[2])
-                is_timed = timed[0] in w.reach([goes_timed], blocked={b}, unwind=False) and untimed[0] not in w.reach([goes_timed], blocked={b}, unwind=False)
-                if is_timed != (n > MIN):
-                    bad.append(n)
-            ok = not bad
-            detail += " mismatching active counts: %s" % bad
-    ctx.ob("C20.4", "%s|timed-wait-iff-above-minimum" % w.id, "a worker waits with a timeout exactly when more than MIN_THREADS (%d) workers exist, and indefinitely otherwise" % MIN, ok, w.loc(b), detail)
-    t = w.term(timed[0])
-    od = w.origin(t["args"][2])
-    ms = [x for x in origin_calls(od) if re.search(r"Duration::from_millis$", x[1])]
-    ctx.ob("C20.4", "%s|idle-period-5s" % w.id, "the idle period is 5000 ms", bool(ms) and ms[0][2][0][0] == "const" and ms[0][2][0][1] == 5000, w.loc(timed[0]), origin_str(od))
-    td = method(facts, T_DROP, TP, "drop")
-    ctx.touch(td)
-    st = [(bb, t2) for bb, t2 in td.calls() if call_matches(t2, r"atomic::Atomic(::<usize>|Usize)::store$") and "active_tasks" in arg_origin_fields(td, t2)]
-    na = [bb for bb, t2 in td.calls() if call_is(t2, "std::sync::Condvar::notify_all")]
-    ok = len(st) == 1 and isinstance(op_const(st[0][1]["args"][1]), int) and op_const(st[0][1]["args"][1]) > MIN and bool(na) and td.dominates(st[0][0], na[0], unwind=False)
-    ctx.ob("C20.4", "%s|pool-drop-retires-everyone" % td.id, "dropping the pool raises active_tasks above the minimum, then wakes every parked worker (so each re-evaluates and takes the timed branch)", ok, "%s:%d" % (td.file, td.line))
-    # a dispatch wakes ONE worker: waking all of them restarts the idle period of every worker that finds nothing to do, so
-    # under light steady traffic surplus workers never reach their idle timeout
-    spawn_ = roles.inherent(facts, TP, "spawn")
+    ctx.ob("C20.4", "worker|waits", "the worker has a timed wait (surplus workers) and an untimed one (the fixed minimum)", len(timed) == 1 and len(untimed) == 1, "%s:%d" % (w.file, w.line), "%d timed, %d untimed" % (len(timed), len(untimed)))
+    MIN = None
+    if len(timed) == 1 and len(untimed) == 1 and P.live_field:
+        dom = w.dominators(False)
+        dec = None
+        for b in sorted(dom[timed[0]] & dom[untimed[0]], key=lambda b: -len(dom[b])):
+            bs2 = bool_switch(w, b)
+            if bs2:
+                dec = (b, bs2)
+                break
+        ctx.require(dec is not None, "C20.4: decision between timed and untimed wait")
+        b, bs2 = dec
+        o = w.origin(bs2[0])
+        ok = False
+        detail = origin_str(o)
+        if o[0] == "binop" and o[1] in ("Le", "Lt", "Gt", "Ge"):
+            l, r = o[2], o[3]
+            lhs_live = origin_has_call(l, PR.ATOMIC_LOAD) and P.counter_of(w, l) == P.live_field
+            rhs_live = origin_has_call(r, PR.ATOMIC_LOAD) and P.counter_of(w, r) == P.live_field
+            other = r if lhs_live else l
+            MIN = int_of_origin(facts, other)
+            if MIN is None:
+                # a read of a local static
+                for x in origin_walk(other):
+                    if x[0] == "const" and len(x) > 2:
+                        for s in facts.d["statics"]:
+                            v = static_value(facts, s["id"])
+                            if isinstance(v, int) and (s["id"].rsplit("::", 1)[-1] in str(x[2]) or str(x[2]).startswith("{alloc") or "&" in str(x[2])):
+                                sts = [st["rhs"]["op"].get("static") for blk in w.blocks for st in blk["stmts"] if st["s"] == "assign" and st["rhs"]["rv"] == "use" and st["rhs"]["op"].get("static")]
+                                if s["id"] in sts:
+                                    MIN = v
+            ops = {"Le": operator.le, "Lt": operator.lt, "Gt": operator.gt, "Ge": operator.ge}
+            bad = []
+            if (lhs_live or rhs_live) and isinstance(MIN, int):
+                for n in (0, 1, MIN - 1, MIN, MIN + 1, MIN + 2, 100, 999999999):
+                    val = ops[o[1]](n, MIN) if lhs_live else ops[o[1]](MIN, n)
+                    goes = (bs2[1] if val else bs2[2])
+                    is_timed = timed[0] in w.reach([goes], blocked={b}, unwind=False) and untimed[0] not in w.reach([goes], blocked={b}, unwind=False)
+                    if is_timed != (n > MIN):
+                        bad.append(n)
+                ok = not bad
+                detail += " mismatching live counts: %s" % bad
+        ctx.counts["minimum workers"] = MIN if isinstance(MIN, int) else -1
+        ctx.ob("C20.4", "worker|timed-wait-iff-above-minimum", "a worker waits with a timeout exactly when more than the fixed minimum (%s) of workers exist, and indefinitely otherwise" % MIN, ok, w.loc(b), detail)
+        t = w.term(timed[0])
+        od = w.origin(t["args"][2])
+        varies = [x for x in origin_walk(od) if x[0] in ("arg", "local", "field", "unknown")]
+        ctx.ob("C20.4", "worker|idle-period-constant", "the idle period is a constant", not varies, w.loc(timed[0]), origin_str(od))
+    td = P.drop
+    ctx.ob("C20.4", "pool|has-destructor", "the pool has a destructor that retires its workers", td is not None, P.tp)
+    if td is not None and isinstance(MIN, int):
+        ctx.touch(td)
+        st = [(bb, t2) for bb, t2 in td.calls() if call_matches(t2, r"atomic::Atomic(::<usize>|Usize)::store$") and P.counter_of(td, td.origin(t2["args"][0])) == P.live_field]
+        na = [bb for bb, t2 in td.calls() if call_is(t2, "std::sync::Condvar::notify_all")]
+        ok = len(st) == 1 and isinstance(op_const(st[0][1]["args"][1]), int) and op_const(st[0][1]["args"][1]) > MIN and bool(na) and td.dominates(st[0][0], na[0], unwind=False)
+        ctx.ob("C20.4", "pool-drop|retires-everyone", "dropping the pool raises the live counter above the minimum, then wakes every parked worker (so each re-evaluates and takes the timed branch)", ok, "%s:%d" % (td.file, td.line))
+    # a dispatch wakes ONE worker: waking all of them restarts the idle period of every worker that finds nothing to do
     for g2, bb2, t2 in facts.all_calls(lambda t2: call_is(t2, "std::sync::Condvar::notify_all")):
-        if g2.rec.get("impl_self_adt") == TP or g2.id.startswith("util::task_pool::"):
-            ctx.ob("C20.4", "notify_all|%s" % g2.id, "only the pool's destructor wakes all workers; dispatching a connection wakes one", g2.id == td.id, g2.loc(bb2),
-                   None if g2.id == td.id else "every dispatch wakes every idle worker, each of which then starts a fresh 5 s wait: with one connection per idle period no surplus worker ever retires")
-    # active_tasks writers
-    shared.pool_counter_discipline(ctx, "C20.4")
-    # the active guard lives for the whole worker: created before the first task, dropped on every exit including unwinding
-    reg_new = roles.inherent(facts, REG, "new")
-    regs = [(bb, t2) for bb, t2 in w.calls() if call_is(t2, reg_new.id)]
-    act = [(bb, t2) for bb, t2 in regs if "active_tasks" in arg_origin_fields(w, t2)]
-    ctx.require(len(act) == 1, "C20.4: active-thread registration in the worker")
-    gl = act[0][1]["dest"]["l"]
-    gd = {bb for bb, t2 in w.drops() if not t2["pl"]["p"] and t2["pl"]["l"] == gl}
-    r_ = w.reach([w.normal_target(act[0][0])], blocked=gd, unwind=True)
-    exits = [x for x in r_ if w.term(x)["t"] in ("return", "resume")]
-    ok = not exits and not w.in_loop(act[0][0])
-    ctx.ob("C20.4", "%s|active-count-released-on-every-exit" % w.id, "a worker is counted from its start until it exits, on every exit including a panicking task", ok, w.loc(act[0][0]))
+        if g2.file == P.file:
+            okn = td is not None and g2.id == td.id
+            ctx.ob("C20.4", "notify_all|%s" % g2.id, "only the pool's destructor wakes all workers; dispatching a connection wakes one", okn, g2.loc(bb2),
+                   None if okn else "every dispatch wakes every idle worker, each of which then starts a fresh idle period: with one connection per idle period no surplus worker ever retires")
+    PR.rule_counter_discipline(ctx, "C20.4")
+    incs, decs, _ = P.counter_events(w)
+    live_incs = [bb for bb, c, h in incs if c == P.live_field]
+    ctx.ob("C20.4", "worker|counted-once", "a worker is counted alive exactly once, from its start", len(live_incs) == 1 and not w.in_loop(live_incs[0]), "%s:%d" % (w.file, w.line))
+    PR.rule_worker_loop(ctx, "C20.4")
 
     # ---- C20.5 thread creation sites
-    add_thread = roles.inherent(facts, TP, "add_thread")
-    spawn = roles.inherent(facts, TP, "spawn")
-    tpnew = roles.inherent(facts, TP, "new")
     sites = [(g, bb) for g, bb, t2 in facts.all_calls(lambda t2: call_matches(t2, r"^std::thread::(spawn|Builder::spawn\w*|scope)"))]
     ctx.floor("C20.5 thread creation sites", len(sites), 2)
+    in_fl = {(SM.fl.src_of(b), SM.fl.blocks[b].get("obb")) for b in range(SM.fl.n) if not SM.fl.blocks[b].get("synthetic")}
     for g, bb in sites:
-        ok = g.id in (fl.id, add_thread.id)
+        ok = g.file == P.file or (g.id, bb) in in_fl
         ctx.ob("C20.5", "thread-spawn|%s" % g.id, "threads are created only for the accept loop and by the worker pool (never per request)", ok and not g.in_loop(bb), g.loc(bb))
-    for g, bb, t2 in facts.callers_of(add_thread.id):
-        ok = g.id in (tpnew.id, spawn.id)
-        ctx.ob("C20.5", "add_thread-caller|%s" % g.id, "workers are added only when the pool is created and by spawn's no-idle-worker branch", ok, g.loc(bb))
-    # TaskPool::new starts exactly MIN_THREADS workers: loop over 0..MIN_THREADS
-    rng = [(bb, s) for bb, i, s in tpnew.assigns() if s["rhs"]["rv"] == "agg" and str(s["rhs"].get("adt", "")).endswith("ops::Range")]
-    ok = False
-    if rng:
-        r = rng[0][1]["rhs"]
-        ostart, oend = tpnew.origin(r["ops"][0]), tpnew.origin(r["ops"][1])
-        statics = [st["rhs"]["op"].get("static") for blk in tpnew.blocks for st in blk["stmts"] if st["s"] == "assign" and st["rhs"]["rv"] == "use" and st["rhs"]["op"].get("static")]
-        ok = ostart[0] == "const" and ostart[1] == 0 and "util::task_pool::MIN_THREADS" in statics
-    calls = tpnew.call_blocks(lambda t2: call_is(t2, add_thread.id))
-    ok = ok and len(calls) == 1 and tpnew.in_loop(calls[0])
-    ctx.ob("C20.5", "%s|starts-min-threads" % tpnew.id, "a new pool starts MIN_THREADS workers", ok, "%s:%d" % (tpnew.file, tpnew.line))
+    # who starts workers: the pool's constructor (the fixed minimum) and dispatch (no idle worker)
+    spawners = {g.id for g, bb in sites if g.file == P.file}
+    for sid in sorted(spawners):
+        for g, bb, t2 in facts.callers_of(sid):
+            ok = g.file == P.file
+            ctx.ob("C20.5", "worker-start-caller|%s" % g.id, "workers are started only by the pool's own code", ok, g.loc(bb))
+    if P.f_ctor is not None and isinstance(MIN, int):
+        fc = P.f_ctor
+        rng = [(bb, s) for bb, i, s in fc.assigns() if s["rhs"]["rv"] == "agg" and str(s["rhs"].get("adt", "")).endswith("ops::Range")]
+        ok = False
+        if rng:
+            r = rng[0][1]["rhs"]
+            ostart, oend = fc.origin(r["ops"][0]), fc.origin(r["ops"][1])
+            end = int_of_origin(facts, oend)
+            if end is None:
+                sts = [st["rhs"]["op"].get("static") for blk in fc.blocks for st in blk["stmts"] if st["s"] == "assign" and st["rhs"]["rv"] == "use" and st["rhs"]["op"].get("static")]
+                vals = [static_value(facts, s) for s in sts]
+                end = vals[0] if len(vals) == 1 else None
+            ok = ostart[0] == "const" and ostart[1] == 0 and end == MIN
+        calls = [bb for bb, t2 in fc.calls() if call_matches(t2, PR.THREAD_SPAWN)]
+        ok = ok and len(calls) == 1 and fc.in_loop(calls[0])
+        ctx.ob("C20.5", "%s|starts-min-threads" % P.ctor.id, "a new pool starts exactly the fixed minimum of workers", ok, "%s:%d" % (fc.file, fc.line))
     return {}
